@@ -1,0 +1,12 @@
+//go:build windows || plan9 || js
+// +build windows plan9 js
+
+package lang
+
+import "os"
+
+// signalExitNum returns the exit number for a process that was terminated by a
+// signal.
+func signalExitNum(_ *os.ProcessState) int {
+	return 1
+}
